@@ -517,8 +517,10 @@ theorem inv_globalFire (c : Cfg) (ar aq : Nat) (s : S) (h : Inv c ar aq s) : Inv
           · intro _ _ _ _; right; simp [upOnResetStream]
           · simpa [K25, upOnResetStream] using k25
           · intro _ hp
-            have := (k26 hcl (by simpa [upOnResetStream] using hp)).1
-            exact ⟨by simpa [upOnResetStream] using this, fun _ => by simp [upOnResetStream], fun _ => by simp [upOnResetStream, hsr]⟩
+            have h26 := k26 hcl (by simpa [upOnResetStream] using hp)
+            have := h26.1
+            exact ⟨by simpa [upOnResetStream] using this, fun _ => by simp [upOnResetStream], fun _ => by simp [upOnResetStream, hsr],
+              by simpa [upOnResetStream] using h26.2.2.2⟩
           · intro _ _ _; left; simp [upOnResetStream, hsr]
           · intro _ _; left; simp [upOnResetStream]
           · simpa [K29, upOnResetStream] using k29
@@ -605,6 +607,22 @@ theorem inv_terminate (c : Cfg) (ar aq : Nat) (s : S) (code : Nat) (h : Inv c ar
   · simpa [K32] using k32
   · intro hh; exact absurd hh (by simp [hcl])
 
+/-- **late response during the back-off is ignored**: in every state satisfying the invariant the label is a no-op — while
+the worker sleeps in `doRetry` the stream's current upstream request is the fresh one `processError` installed (K26), so
+the frame of the attempt that was given up finds no current request -/
+theorem lateBackoff_noop (c : Cfg) (ar aq : Nat) (s : S) (k : Nat) (d t : Bool) (h : Inv c ar aq s) :
+    lateBackoff s k d t = s := by
+  unfold lateBackoff
+  by_cases hb : backoff s = true
+  · rw [if_pos hb]
+    simp only [backoff, Bool.and_eq_true, beq_iff_eq] at hb
+    have hcl : s.cleaned = false := by
+      have := h.k0; simp only [K0] at this; rw [hb.1] at this; simpa using this
+    have hup := (h.k26 hcl hb.2).2.2.2
+    unfold lateRecv
+    rw [if_pos (by simp [curStream, hup])]
+  · rw [if_neg hb]
+
 /-- every label of another goroutine preserves the invariant -/
 theorem inv_async (c : Cfg) (ar aq : Nat) (s : S) (l : Label) (hl : l ≠ .work) (h : Inv c ar aq s) :
     Inv c ar aq (step c s l) := by
@@ -631,5 +649,9 @@ theorem inv_async (c : Cfg) (ar aq : Nat) (s : S) (l : Label) (hl : l ≠ .work)
     simp only [step]
     rw [terminateRaced_eq]
     exact inv_terminate c ar aq s code h
+  | lateResp k d t =>
+    simp only [step]
+    rw [lateBackoff_noop c ar aq s k d t h]
+    exact h
 
 end MosnVerif.Model.Downstream
